@@ -298,6 +298,15 @@ fn run_case(case: &Case, ctx: &mut Ctx) {
 }
 
 /// all sequences of length 1..=maxlen over the lattice {0..side}^2, by index
+fn magnitude_values_for(thorough: bool) -> Vec<f64> {
+    let p = |e: i32| 2f64.powi(e);
+    if thorough {
+        vec![0.0, 1.0, -1.0, p(52), -p(52), p(52) + 2.0, -(p(52) + 2.0), -p(130), p(130), p(-30), p(600), -p(600), p(300), p(-530), -p(-530), p(-1000)]
+    } else {
+        vec![0.0, 1.0, -1.0, p(52), -p(52), p(52) + 2.0, -p(130), p(-30), p(600), p(300), -p(-530), p(-1000)]
+    }
+}
+
 fn lattice(side: usize) -> Vec<(f64, f64)> {
     let mut v = vec![];
     for x in 0..side {
@@ -333,7 +342,7 @@ fn zm_patterns(ty: Ty) -> Vec<u8> {
 
 enum Unit {
     /// triangles over a 10 x 10 grid of coordinates of very different magnitude, first vertex fixed
-    Magnitudes { ty: Ty, first: usize },
+    Magnitudes { ty: Ty, first: usize, thorough: bool },
     /// single ring over L3: sequences [lo, hi) of a given length
     Single { ty: Ty, len: usize, lo: usize, hi: usize },
     /// two rings over the lattice of the given side: first ring index, all second rings
@@ -429,14 +438,16 @@ fn enumerate(u: &Unit, ctx: &mut Ctx, tick: &dyn Fn()) {
                 tick();
             }
         }
-        Unit::Magnitudes { ty, first } => {
-            // coordinates of very different magnitude and sign (2^52 and beyond, where a double has no fraction
-            // bits left; values below the no-data threshold, which is about measures, not about positions)
-            let v: [f64; 10] = [0.0, 1.0, -1.0, 4503599627370496.0, -4503599627370496.0, 4503599627370498.0, -4503599627370498.0, -1361129467683753853853498429727072845824.0, 1361129467683753853853498429727072845824.0, 9.313225746154785e-10];
-            let pt = |i: usize| -> P4 { [v[i / 10], v[i % 10], 5.0, 7.0] };
+        Unit::Magnitudes { ty, first, thorough } => {
+            // coordinates of very different magnitude and sign: 2^52 and beyond (where a double has no fraction bits
+            // left), values below the no-data threshold (which is about measures, not about positions), and the far
+            // ends of the exponent range, where products approach overflow resp. the subnormal range
+            let v = magnitude_values_for(*thorough);
+            let n = v.len();
+            let pt = |i: usize| -> P4 { [v[i / n], v[i % n], 5.0, 7.0] };
             let a = pt(*first);
-            for j in 0..100 {
-                for k in 0..100 {
+            for j in 0..n * n {
+                for k in 0..n * n {
                     let p = vec![a, pt(j), pt(k)];
                     for role in 0..2u8 {
                         run_case(&Case { ty: *ty, ctor: Ctor::WithRings, rings: vec![(role, p.clone())] }, ctx);
@@ -632,8 +643,10 @@ pub fn check(tier: Tier) -> i32 {
         units.push(Unit::Devs { ty });
         units.push(Unit::Offsets { ty });
         if ty == Ty::Polygon || tier == Tier::Thorough {
-            for first in 0..100 {
-                units.push(Unit::Magnitudes { ty, first });
+            let thorough = tier == Tier::Thorough;
+            let n = magnitude_values_for(thorough).len();
+            for first in 0..n * n {
+                units.push(Unit::Magnitudes { ty, first, thorough });
             }
         }
     }
@@ -665,7 +678,7 @@ pub fn check(tier: Tier) -> i32 {
             tier,
             level: "model_checking",
             engine: "E2 enumerator over lattice vertex sequences on the real Polygon*/Multipatch constructors and macros; oracle = exact i128 shoelace and vertex-sequence comparison (RefRing)",
-            rule: "single ring: every vertex sequence of length 1..5 (thorough 6) over {0,1,2}^2 x declared role x {new, with_rings, polygon!} x {Polygon, PolygonM, PolygonZ} x Z/M patterns {all equal, last differs only in M, only in Z}; two rings: every pair of sequences of length <= 4 over {0,1}^2 (thorough also <= 3 over {0,1,2}^2) x all role vectors; three rings: every triple of length <= 3 over {0,1}^2 x all role vectors; deviations: every slot of 4 base rings x F_xy, and a last vertex 1-8 ulps away from the first in one coordinate; thin rings of EVERY size 4..=bound (one long edge, both orientations, both roles); every ring of 3-4 vertices over {0,1,2}^2 translated by offsets in {0, +-2^27, 2^40}^2; every triangle over the 10x10 grid of coordinates {0, +-1, +-2^52, +-(2^52+2), +-2^130, 2^-30} (both roles), orientation judged by the sign of the exact area computed in arbitrary-precision integers; multipatch: every single patch (length <= 4) x 6 kinds x {new, with_parts, multipatch!}, every pair (length <= 3) x 36 kind pairs; non-trivial = >= 2 rings or a ring of >= 3 vertices",
+            rule: "single ring: every vertex sequence of length 1..5 (thorough 6) over {0,1,2}^2 x declared role x {new, with_rings, polygon!} x {Polygon, PolygonM, PolygonZ} x Z/M patterns {all equal, last differs only in M, only in Z}; two rings: every pair of sequences of length <= 4 over {0,1}^2 (thorough also <= 3 over {0,1,2}^2) x all role vectors; three rings: every triple of length <= 3 over {0,1}^2 x all role vectors; deviations: every slot of 4 base rings x F_xy, and a last vertex 1-8 ulps away from the first in one coordinate; thin rings of EVERY size 4..=bound (one long edge, both orientations, both roles); every ring of 3-4 vertices over {0,1,2}^2 translated by offsets in {0, +-2^27, 2^40}^2; every triangle over the 12x12 (thorough 16x16) grid of coordinates {0, +-1, +-2^52, 2^52+2, -2^130, 2^-30, 2^600, 2^300, -2^-530, 2^-1000; thorough also -(2^52+2), 2^130, -2^600, 2^-530} (both roles), orientation judged by the sign of the exact area computed in arbitrary-precision integers; multipatch: every single patch (length <= 4) x 6 kinds x {new, with_parts, multipatch!}, every pair (length <= 3) x 36 kind pairs; non-trivial = >= 2 rings or a ring of >= 3 vertices",
             bounds: json!({"lattice": "3x3 (single ring), 2x2 (two / three rings)", "max_ring_len": tier.pick(5, 6), "units": units.len()}),
             exhaustive: true,
             assumptions: vec!["orientation is judged for every finite ring against the sign of the exact area sum (arbitrary-precision integers); rings on which f64 cannot represent a term of that sum are reported under the clause 'inexact-arithmetic', which is a listed known finding; closure and vertex preservation also on F_xy values; equality of vertices is IEEE == on the fields the point type has (so -0.0 closes +0.0)".into()],
